@@ -215,26 +215,172 @@ def dtype_array(rng, dt, shape, signed_values=False):
 
 def dtype_exact(dti, dtw, method, folds):
     """True when the native-dtype computation performs, after exact conversions, the same
-    binary64 operations as the float64 copies (so results must be bit-identical):
-    everything except a float32 weights array (the product weights * image is rounded to
-    float32 for narrow images) and 'remap' of an unfolded float32 image (scipy resamples
-    in the input's precision)."""
-    if dtw == 'float32':
+    binary64 operations as the float64 copies (so results must be bit-identical).  Not so when
+    numpy evaluates weights * image in float32 (float32 with float32 or a narrow integer type),
+    and for 'remap' of an unfolded float32 image / float32 weights (scipy resamples in the
+    precision of its input)."""
+    if method == 'remap' and not folds and 'float32' in (dti, dtw):
         return False
-    if dti == 'float32' and method == 'remap' and not folds:
-        return False
-    return True
+    if dtw in (None, 'float64'):
+        return True
+    ki, kw = np.dtype(dti).kind, np.dtype(dtw).kind
+    if ki in 'iu' and kw in 'iu':
+        return True                      # (integers: exact once the product is taken in binary64)
+    return np.result_type(np.dtype(dti), np.dtype(dtw)) == np.float64
 
 
 def dtype_key(dti, dtw, method, folds, what):
-    """Classification of a dtype disagreement: the three candidate defects of the current
-    tree get their own keys, anything else a key naming the dtypes."""
+    """Classification of a dtype disagreement: the candidate defects of the current tree get
+    their own keys, anything else a key naming the dtypes."""
     ki = np.dtype(dti).kind
     kw = None if dtw in (None, 'float64') else np.dtype(dtw).kind
-    if kw in ('i', 'u') and method == 'remap' and what.startswith('exception'):
-        return 'dtype:remap-integer-weights-raise'
+    if kw in ('i', 'u') and method == 'remap':
+        return 'dtype:remap-integer-weights'
     if kw in ('i', 'u') and ki in ('i', 'u'):
         return 'dtype:integer-weights-times-integer-image-wrap'
     if ki in ('i', 'u') and method == 'remap' and not folds:
         return 'dtype:remap-unfolded-integer-image-rounded'
     return 'dtype:image=%s:weights=%s:method=%s:%s' % (dti, dtw, method, 'fold' if folds else 'nofold')
+
+
+DTYPE_COMPUTE = '''
+def compute(mode, IM, W, cfg):
+    import numpy as np
+    import abel.tools.vmi as vmi
+    origin = tuple(cfg['origin']) if isinstance(cfg['origin'], list) else cfg['origin']
+    if mode == 'rbasex':
+        from abel.rbasex import rbasex_transform, cache_cleanup
+        cache_cleanup()
+        rec, d = rbasex_transform(IM, origin=origin, rmax=cfg['rmax'], order=cfg['order'], odd=cfg['odd'], weights=W,
+                                  out=cfg.get('out', 'same'))
+        return {'image': rec, 'cos': d.cos(), 'valid': np.asarray(d.valid, float)}
+    kw = dict(odd=cfg['odd'], use_sin=cfg['use_sin'], weights=W, method=cfg['method'])
+    res = vmi.Distributions(origin, cfg['rmax'], cfg['order'], **kw).image(IM)
+    if mode == 'distributions':
+        return {'cos': res.cos(), 'valid': np.asarray(res.valid, float)}
+    win = cfg.get('window', 1)
+    return {'cossin': res.cossin(), 'harmonics': res.harmonics(), 'Ibeta': res.Ibeta(win), 'rIbeta': res.rIbeta(win),
+            'vmi.harmonics': vmi.harmonics(IM, origin, cfg['rmax'], cfg['order'], **kw),
+            'vmi.Ibeta': vmi.Ibeta(IM, origin, cfg['rmax'], cfg['order'], win, **kw)}
+'''
+exec(DTYPE_COMPUTE)     # defines compute()
+
+SNIPPET_DTYPE = '''
+import json, sys, warnings
+import numpy as np
+warnings.simplefilter('ignore')
+''' + DTYPE_COMPUTE + '''
+p = json.loads(%(params)r)
+cfg = p['cfg']; mode = p['mode']
+IM = np.array(p['IM'], dtype=np.float64 if p['dti'] == 'float32' else object).astype(p['dti'])
+W = None if p['W'] is None else np.array(p['W'], dtype=np.float64 if p['dtw'] in ('float32', 'float64') else object).astype(p['dtw'])
+try:
+    nat = compute(mode, IM, W, cfg)
+except Exception as e:
+    print('dtype independence FAILS:', p['dti'], 'image /', p['dtw'], 'weights raise', type(e).__name__, e); sys.exit(1)
+ref = compute(mode, IM.astype(float), None if W is None else W.astype(float), cfg)
+bad = []
+for k in ref:
+    a, b = np.asarray(nat[k], float), np.asarray(ref[k], float)
+    if a.shape != b.shape:
+        bad.append(k + ' (shape)'); continue
+    if p['exact']:
+        ok = np.array_equal(a, b, equal_nan=True)
+    elif k == 'image':
+        ok = True
+    else:
+        sel = p['radii'] if a.shape[-1] == p['nr'] else slice(None)
+        a, b = a[..., sel], b[..., sel]
+        ok = np.allclose(a, b, rtol=p['tol'], atol=p['tol'] * (np.nanmax(np.abs(b)) if b.size else 0.0), equal_nan=True)
+    if not ok: bad.append(k)
+print('dtype independence (%%s image, %%s weights, %%s)' %% (p['dti'], p['dtw'], mode), 'holds' if not bad else 'FAILS for ' + ', '.join(bad))
+sys.exit(0 if not bad else 1)
+'''
+
+
+def dtype_search(rng, budget, mode, prefix, methods=('nearest', 'linear', 'remap')):
+    """Random images/weights of every dtype of DTYPES (values up to the type's extremes) through
+    `mode` in {'distributions', 'representations', 'rbasex'}; the result must equal that of the
+    float64 copies (bit for bit when dtype_exact, else to float32 accuracy at well-conditioned
+    radii).  Returns (failures, n_eval, distinct); a failure is (key, what, snippet, data)."""
+    import json
+    import warnings
+    fails, n_eval, distinct = [], 0, set()
+    for it in range(budget):
+        meth = methods[rng.integers(len(methods))]
+        lo = 12 if meth == 'remap' else 4
+        h, w = [int(v) for v in rng.integers(lo, lo + 12, 2)]
+        k = rng.random()
+        if k < 0.5:
+            o = (int(rng.integers(h)), int(rng.integers(w)))
+        elif k < 0.75:
+            o = ORIGIN_STRINGS[rng.integers(len(ORIGIN_STRINGS))]
+        else:
+            o = ([0, h - 1][rng.integers(2)], [0, w - 1][rng.integers(2)])
+        row, col = resolve_origin((h, w), o)
+        rm = RMAX_KW[rng.integers(9)] if rng.random() < 0.7 else int(rng.integers(1, max(h, w)))
+        order = int(rng.integers(0, 5)) if rng.random() < 0.8 else int(rng.integers(0, 9))
+        odd = bool(rng.integers(2))
+        orders, odd_r = orders_of(order, odd)
+        sin = bool(rng.integers(2)) if mode != 'rbasex' else False
+        dti = DTYPES[rng.integers(len(DTYPES))]
+        dtw = [None, None, 'float64'][rng.integers(3)] if rng.random() < 0.5 else DTYPES[rng.integers(len(DTYPES))]
+        IM = dtype_array(rng, dti, (h, w), signed_values=bool(rng.integers(2)))
+        W = None if dtw is None else (rng.uniform(0.2, 3, (h, w)) if dtw == 'float64' else dtype_array(rng, dtw, (h, w)))
+        folds = not ((row in (0, h - 1) or odd_r) and col in (0, w - 1)) if not odd_r else col not in (0, w - 1)
+        if mode == 'rbasex':
+            meth = 'linear'
+        cfg = dict(origin=o if isinstance(o, str) else [int(o[0]), int(o[1])], rmax=rm, order=order, odd=odd, use_sin=sin,
+                   method=meth, window=int([1, 1, 2, 3, 5][rng.integers(5)]),
+                   out=['same', 'fold', 'unfold', 'full', 'full-unique'][rng.integers(5)])
+        exact = dtype_exact(dti, dtw, meth, folds)
+        n_eval += 1
+        distinct.add((mode, dti, dtw, meth if mode != 'rbasex' else 'rbasex', folds))
+        what, radii, nr, tol = None, [], 0, (1e-3 if meth == 'remap' else 1e-4)
+        with warnings.catch_warnings(), np.errstate(all='ignore'):
+            warnings.simplefilter('ignore')
+            try:
+                ref = compute(mode, IM.astype(float), None if W is None else W.astype(float), cfg)
+            except Exception:     # noqa  (an invalid request also for float64: not a dtype question)
+                continue
+            try:
+                nat = compute(mode, IM, W, cfg)
+            except Exception as e:     # noqa
+                what = 'exception %s: %s' % (type(e).__name__, str(e)[:100])
+                nat = None
+        if nat is not None:
+            nr = ref['cos'].shape[-1] if 'cos' in ref else ref['harmonics'].shape[-1]
+            if not exact:
+                conds = hankel_cond((h, w), row, col, None if W is None else W.astype(float), orders, odd_r,
+                                    'linear' if meth == 'remap' else meth, sin, nr - 1)
+                radii = [int(r) for r in range(nr) if conds[r] <= 1e3]
+            bad = []
+            for name in ref:
+                a, b = np.asarray(nat[name], float), np.asarray(ref[name], float)
+                if a.shape != b.shape:
+                    bad.append(name + ' (shape)')
+                    continue
+                if exact:
+                    ok = np.array_equal(a, b, equal_nan=True)
+                elif name == 'image':
+                    ok = True
+                else:
+                    sel = radii if a.shape[-1] == nr else slice(None)
+                    a, b = a[..., sel], b[..., sel]
+                    ok = np.allclose(a, b, rtol=tol, atol=tol * (np.nanmax(np.abs(b)) if b.size else 0.0), equal_nan=True)
+                if not ok:
+                    bad.append(name)
+            if mode == 'rbasex' and nat['image'].dtype != np.float64:
+                bad.append('image dtype %s' % nat['image'].dtype)
+            if bad:
+                what = 'differs from the float64 copy in ' + ', '.join(bad)
+        if what:
+            key = prefix + ':' + dtype_key(dti, dtw, meth, folds, what)
+            params = dict(cfg=cfg, mode=mode, dti=dti, dtw=dtw, exact=bool(exact), radii=radii, nr=nr, tol=tol,
+                          IM=[[(float(v) if dti == 'float32' else int(v)) for v in r_] for r_ in IM],
+                          W=None if W is None else [[(float(v) if dtw in ('float32', 'float64') else int(v)) for v in r_] for r_ in W])
+            fails.append((key, '%s image %dx%d, %s weights, origin %r, rmax %r, order %d, odd %s, %s, use_sin %s: %s'
+                          % (dti, h, w, dtw, o, rm, order, odd, meth if mode != 'rbasex' else 'rbasex out=%s' % cfg['out'], sin, what),
+                          SNIPPET_DTYPE % dict(params=json.dumps(params)),
+                          dict(image_dtype=dti, weights_dtype=dtw, method=meth, folds=bool(folds), shape=[h, w], mode=mode)))
+    return fails, n_eval, len(distinct)
